@@ -34,7 +34,16 @@ Hostiles == { H("call-unknown-export", 7, 0 - 1, 77), H("call-unknown-answer", 7
               H("disembargo-non-import", 2, 0 - 1, 0), H("disembargo-non-import", 1, 0 - 1, 0), H("disembargo-unknown-embargo", 0 - 1, 0 - 1, 77),
               H("disembargo-unknown-context", 0 - 1, 0 - 1, 0),
               H("resolve", 0 - 1, 0 - 1, 3), H("provide", 9, 0 - 1, 0), H("accept", 9, 0 - 1, 0), H("join", 9, 0 - 1, 0),
-              H("unknown-message", 0 - 1, 0 - 1, 0), H("abort", 0 - 1, 0 - 1, 0), H("empty-message", 0 - 1, 0 - 1, 0) }
+              H("unknown-message", 0 - 1, 0 - 1, 0), H("abort", 0 - 1, 0 - 1, 0), H("empty-message", 0 - 1, 0 - 1, 0),
+              \* a call addressed to the answer it is itself asking for
+              H("call-self-target", 7, 7, 0),
+              \* a capability table whose first entry is a good new import and whose second entry is bad: the good one has to be dropped again
+              H("call-cap-then-bad-cap", 7, 0 - 1, 77), H("call-cap-then-bad-cap", 7, 1, 77),
+              \* a call that cannot be delivered (bad target) but carries a capability for a new import
+              H("call-unknown-target-which-with-cap", 7, 0 - 1, 0), H("call-transform-unknown-op-with-cap", 7, 1, 0),
+              H("call-unknown-export-with-cap", 7, 0 - 1, 77), H("call-unknown-answer-with-cap", 7, 0 - 1, 77),
+              \* Returns the connection did not ask for / cannot parse, carrying capabilities
+              H("return-unknown-question-with-cap", 0 - 1, 0 - 1, 77), H("return-cap-then-bad-cap", 0 - 1, 0 - 1, 77) }
 
 Probe == << [Act("p-call") EXCEPT !.q = 12, !.on = 1, !.tag = 50, !.kind = "root"], [Act("a-return") EXCEPT !.tag = 50, !.kind = "ok-nocap"],
             [Act("l-bootstrap") EXCEPT !.h = "boot2", !.cap = 9], [Act("l-call") EXCEPT !.h = "boot2", !.tag = 150] >>
